@@ -3,7 +3,7 @@ import json
 import random
 import time
 
-from .. import common, container, pyavro
+from .. import scopes, common, container, pyavro
 from . import C05
 
 PROP = "C17"
@@ -48,6 +48,26 @@ def make_files(tier):
         if o.get("res") != "ok" or w["stop"] != len(o["sink"]) or len(w["blocks"]) != 3:
             raise common.ToolError(f"could not produce the reference file for {c['codec']}: {json.dumps(w)[:300]}")
         files.append({"codec": c["codec"], "bytes": o["sink"], "hlen": o["build"]["sink_len"], "blocks": w["blocks"], "values": vals})
+    # items that carry a decimal and a fixed (their bytes are read with read_exact, not through the string / bytes paths): null and deflate
+    G2 = scopes.flatten(scopes.rec("ns.Priced", [("a", scopes.prim("long")), ("d", scopes.prim("bytes", lt="decimal", prec=20, scale=2)),
+                                                ("f", scopes.fixed("ns.F6", 6)), ("s", scopes.prim("string"))]))["nodes"]
+
+    def pv(a, unscaled, fx, st):
+        return {"t": "rec", "es": [{"t": "long", "v": pyavro.limbs(a)}, {"t": "dec", "v": pyavro.be16(unscaled), "s": 2},
+                                   {"t": "fix", "v": list(fx)}, {"t": "str", "v": container.T(st)}]}
+    vals2 = [pv(1, 123456789012345, b"abcdef", "x"), pv(-2, -1, b"\x00\x01\x02\x03\x04\x05", ""), pv(3, 0, b"zzzzzz", "tail"), pv(4, 1 << 70, b"\xff" * 6, "q")]
+    ops2 = []
+    for i, v in enumerate(vals2):
+        ops2.append({"op": "serialize", "pres": container.item_pres(G2, v)})
+        if i in (1, 2):
+            ops2.append({"op": "finish"})
+    ops2.append({"op": "into_inner"})
+    cmds2 = [container.writer_cmd(G2, cd, 10 ** 6, ops2, cid=i) for i, cd in enumerate(("null", "deflate"))]
+    obs2, walks2 = container.run_writer_sessions(cmds2)
+    for c, o, w in zip(cmds2, obs2, walks2):
+        if o.get("res") != "ok" or w["stop"] != len(o["sink"]) or len(w["blocks"]) != 3:
+            raise common.ToolError(f"could not produce the decimal reference file for {c['codec']}: {json.dumps(w)[:300]} {json.dumps(o)[:300]}")
+        files.append({"codec": c["codec"], "bytes": o["sink"], "hlen": o["build"]["sink_len"], "blocks": w["blocks"], "values": vals2, "G": G2})
     return files
 
 
@@ -102,7 +122,7 @@ def abstract_file(f, bad_sync=(), dn=None, items=None, cut=(0, AT_NONE)):
 
 def item_lengths(f):
     """byte length of every written value's encoding, per block (the null codec stores them as they are)"""
-    G = container.item_schema()
+    G = f.get("G") or container.item_schema()
     out, k = [], 0
     for b in f["blocks"]:
         out.append([len(pyavro.encode(G, 1, v)) for v in f["values"][k:k + b["count"]]])
